@@ -375,15 +375,59 @@ def certify (st : St) (usePure : Bool) (ever : Array (Array Int)) : Bool :=
     (if usePure then (Solvor.Sat.pureUnits f st.assumptions st.nVars).map (fun p => [p]) else []) ++
     ever.toList.map (·.toList))
 
-/-- the `while var_heap` loop of `pick_var` -/
-def pickLoop : Nat → St → St × Nat
+/-- the `while var_heap` loop of `pick_var`, in the form the theorems are stated about -/
+def pickLoopRef : Nat → St → St × Nat
   | 0, st => (st, 0)
   | fuel + 1, st =>
     match heapPop st.heap with
     | none => (st, 0)
     | some ((_, var), h) =>
       let st := { st with heap := h, inHeap := st.inHeap.set! var false }
+      if st.vals[var]! == UNDEF then (st, var) else pickLoopRef fuel st
+
+/-- the `while var_heap` loop of `pick_var`.  Same function as `pickLoopRef` (`pickLoop_eq_ref`); written so
+that the heap array is detached from the state before `heapPop` updates it, i.e. the compiled code pops in
+place instead of copying the (lazily cleaned, hence large) heap at every pop -/
+def pickLoop : Nat → St → St × Nat
+  | 0, st => (st, 0)
+  | fuel + 1, st =>
+    if st.heap.size == 0 then (st, 0) else
+    let hp := st.heap
+    let st := { st with heap := #[] }
+    match heapPop hp with
+    | none => (st, 0)
+    | some ((_, var), h) =>
+      let st := { st with heap := h, inHeap := st.inHeap.set! var false }
       if st.vals[var]! == UNDEF then (st, var) else pickLoop fuel st
+
+theorem heapPop_eq_none_iff (h : Array (Float × Nat)) : heapPop h = none ↔ h.size = 0 := by
+  unfold heapPop
+  by_cases hz : h.size = 0
+  · simp [hz]
+  · simp only [beq_iff_eq, hz, if_false]
+    constructor
+    · intro hh; split at hh <;> cases hh
+    · intro hh; exact hh.elim
+
+theorem pickLoop_eq_ref : ∀ (fuel : Nat) (st : St), pickLoop fuel st = pickLoopRef fuel st := by
+  intro fuel
+  induction fuel with
+  | zero => intro st; rfl
+  | succ fuel ih =>
+    intro st
+    unfold pickLoop pickLoopRef
+    by_cases hz : st.heap.size = 0
+    · have hn := (heapPop_eq_none_iff st.heap).2 hz
+      simp only [beq_iff_eq, hz, if_true, hn]
+    · simp only [beq_iff_eq, hz, if_false]
+      cases hp : heapPop st.heap with
+      | none => exact absurd ((heapPop_eq_none_iff st.heap).1 hp) hz
+      | some r =>
+        obtain ⟨⟨f, var⟩, h⟩ := r
+        simp only
+        split
+        · rfl
+        · exact ih _
 
 def pickVar (st : St) : St × Nat := pickLoop (st.heap.size + 1) st
 
@@ -427,6 +471,8 @@ structure Out where
   learnedTotal : Nat
   iterations : Nat
   fuel : Nat
+  /-- how often `reduce_db` actually reduced the clause database -/
+  reduced : Nat := 0
   /-- the first learned / blocking clauses in the order they were added (`true` = blocking) -/
   log : Array (Bool × Array Int) := #[]
   /-- why the mirror gave up when `status = UNBOUNDED`: "FUEL" or "GUARD" -/
@@ -448,12 +494,14 @@ structure Loop where
   log : Array (Bool × Array Int)
   /-- every clause learned so far (blocking clauses excluded), as learned -/
   ever : Array (Array Int) := #[]
+  /-- how often `reduce_db` actually reduced the clause database (statistics only) -/
+  reduced : Nat := 0
 
 def mkOut (L : Loop) (status : Status) (sol : Option (List (Nat × Bool)))
     (sols : Option (List (List (Nat × Bool)))) (fuel : Nat) (note : String := "") : Out :=
   { status := status, solution := sol, solutions := sols, decisions := L.st.decisions,
     propagations := L.st.propagations, conflicts := L.st.conflicts, restarts := L.st.restarts,
-    learnedTotal := L.learnedTotal, iterations := L.iters, fuel := fuel, log := L.log, note := note }
+    learnedTotal := L.learnedTotal, iterations := L.iters, fuel := fuel, reduced := L.reduced, log := L.log, note := note }
 
 /-- the three "give up / finished enumerating" exits share this shape -/
 def finish (L : Loop) (status : Status) (fuel : Nat) : Out :=
@@ -508,8 +556,10 @@ def decideSt (st : St) (var : Nat) : St :=
   let st := { st with decisions := st.decisions + 1, trailLim := st.trailLim.push st.trail.size }
   assign st var (st.phase[var]!) (-1)
 
-/-- one iteration of `while True:`; `inl` = the call returns -/
-def step (P : Params) (fuel : Nat) (L : Loop) : Out ⊕ Loop :=
+def emptySt : St := ⟨0, 0, [], #[], #[], #[], 0, #[], #[], #[], #[], #[], 0, #[], #[], #[], 1.0, #[], #[], #[], 0, 0, 0, 0⟩
+
+/-- one iteration of `while True:`; `inl` = the call returns (the form the theorems are stated about) -/
+def stepRef (P : Params) (fuel : Nat) (L : Loop) : Out ⊕ Loop :=
   let L := { L with iters := L.iters + 1 }
   match L.conflict with
   | .fuel => .inl (giveUp L fuel "FUEL")
@@ -531,9 +581,11 @@ def step (P : Params) (fuel : Nat) (L : Loop) : Out ⊕ Loop :=
       if L.sinceRestart ≥ L.nextRestart then
         if st.restarts ≥ P.maxRestarts then .inl (finish L .MAX_ITER fuel) else
         let lubyIdx := L.lubyIdx + 1
+        let red := if ((st.learned.size - st.nBlocking : Nat) : Int) < Solvor.Gen.Sat.reduceDbThreshold then L.reduced
+                   else L.reduced + 1
         let (st, c) := propagate (restartSt st)
         .inr { L with st := st, conflict := c, lubyIdx := lubyIdx, nextRestart := P.lubyFactor * luby lubyIdx,
-                      sinceRestart := 0, decLevel := 0 }
+                      sinceRestart := 0, decLevel := 0, reduced := red }
       else
         let (st, c) := propagate st
         .inr { L with st := st, conflict := c }
@@ -557,6 +609,64 @@ def step (P : Params) (fuel : Nat) (L : Loop) : Out ⊕ Loop :=
       let L := { L with st := st, conflict := c, decLevel := L.decLevel + 1 }
       if st.conflicts ≥ P.maxConflicts then .inl (finish L .MAX_ITER fuel) else .inr L
 
+/-- one iteration of `while True:`.  Same function as `stepRef` (`step_eq_ref`); the state is detached from
+the loop record before `pickVar` so that the compiled code updates its arrays in place -/
+def step (P : Params) (fuel : Nat) (L : Loop) : Out ⊕ Loop :=
+  let L := { L with iters := L.iters + 1 }
+  match L.conflict with
+  | .fuel => .inl (giveUp L fuel "FUEL")
+  | .assumption => .inl (finishInf (P.solutionLimit ≤ 1) L fuel)
+  | .conflict cidx0 =>
+    if L.decLevel == 0 then .inl (finishInf (P.solutionLimit ≤ 1) L fuel) else
+    let A := analyze L.st cidx0
+    if !analysisOk A then .inl (giveUp L fuel "GUARD") else
+    let st := if L.st.trailLim.size == 0 then L.st else applyBumps L.st A.bumps.toList
+    match A.learned with
+    | none => .inl (finishInf (P.solutionLimit ≤ 1) { L with st := st } fuel)
+    | some lc =>
+      if !uipOk st lc A.btLevel then .inl (giveUp { L with st := st } fuel "GUARD") else
+      if !chainOk st cidx0 A.steps lc then .inl (giveUp { L with st := st } fuel "GUARD") else
+      let st := learnAndJump st lc A.btLevel A.lbd
+      let log := if L.log.size < 48 then L.log.push (false, lc) else L.log
+      let L := { L with st := st, decLevel := A.btLevel, learnedTotal := L.learnedTotal + 1, log := log,
+                        sinceRestart := L.sinceRestart + 1, ever := L.ever.push lc }
+      if L.sinceRestart ≥ L.nextRestart then
+        if st.restarts ≥ P.maxRestarts then .inl (finish L .MAX_ITER fuel) else
+        let lubyIdx := L.lubyIdx + 1
+        let red := if ((st.learned.size - st.nBlocking : Nat) : Int) < Solvor.Gen.Sat.reduceDbThreshold then L.reduced
+                   else L.reduced + 1
+        let (st, c) := propagate (restartSt st)
+        .inr { L with st := st, conflict := c, lubyIdx := lubyIdx, nextRestart := P.lubyFactor * luby lubyIdx,
+                      sinceRestart := 0, decLevel := 0, reduced := red }
+      else
+        let (st, c) := propagate st
+        .inr { L with st := st, conflict := c }
+  | .ok =>
+    let st0 := L.st
+    let L := { L with st := emptySt }
+    let (st, var) := pickVar st0
+    let L := { L with st := st }
+    if var == 0 then
+      let sol := readSol st
+      let L := { L with all := L.all.push sol }
+      if L.all.size ≥ P.solutionLimit then
+        if P.solutionLimit == 1 then .inl (mkOut L .OPTIMAL (some sol) none fuel)
+        else .inl (mkOut L .OPTIMAL (some sol) (some L.all.toList) fuel)
+      else
+        let blocking := blockingOf st
+        if blocking.size == 0 then .inl (finish L .OPTIMAL fuel) else
+        let log := if L.log.size < 48 then L.log.push (true, blocking) else L.log
+        let (st, c) := propagate (blockSt st blocking)
+        .inr { L with st := st, conflict := c, decLevel := 0, log := log }
+    else
+      let (st, c) := propagate (decideSt st var)
+      let L := { L with st := st, conflict := c, decLevel := L.decLevel + 1 }
+      if st.conflicts ≥ P.maxConflicts then .inl (finish L .MAX_ITER fuel) else .inr L
+
+theorem step_eq_ref (P : Params) (fuel : Nat) (L : Loop) : step P fuel L = stepRef P fuel L := by
+  unfold step stepRef
+  rfl
+
 def run (P : Params) (fuel0 : Nat) : Nat → Loop → Out
   | 0, L => giveUp L fuel0 "FUEL"
   | fuel + 1, L =>
@@ -568,7 +678,6 @@ def run (P : Params) (fuel0 : Nat) : Nat → Loop → Out
 def countVars (clauses : List (List Int)) (assumptions : List Int) : Nat :=
   (clauses.foldl (fun n c => c.foldl (fun n l => max n l.natAbs) n) 0) |> fun n => assumptions.foldl (fun n l => max n l.natAbs) n
 
-def emptySt : St := ⟨0, 0, [], #[], #[], #[], 0, #[], #[], #[], #[], #[], 0, #[], #[], #[], 1.0, #[], #[], #[], 0, 0, 0, 0⟩
 
 def initSt (clauses : List (List Int)) (assumptions : List Int) (nVars : Nat) : St :=
   let n1 := nVars + 1
@@ -625,7 +734,27 @@ def loadUnits : List (Int × Nat) → St → Option St
     else if (st.vals[lit.natAbs]! == 1) != (decide (0 < lit)) then none
     else loadUnits rest st
 
-def emptyLoop (st : St) : Loop := ⟨st, .ok, 0, 0, 1, 0, #[], 0, 0, #[], #[]⟩
+def emptyLoop (st : St) : Loop := ⟨st, .ok, 0, 0, 1, 0, #[], 0, 0, #[], #[], 0⟩
+
+/-- decisions the main loop can make before the conflict budget is used up: each learned clause and each
+blocking clause is followed by at most `n + 2` of them -/
+def loopDmax (mc sl n : Nat) : Nat := (mc + sl) * (n + 2) + (n + 1)
+
+/-- fuel of the main loop – an upper bound on the number of its iterations (decisions + learned clauses +
+solutions; proved: `Cdcl.solve_good`, `cdcl_fuel_suffices_partial`).  After the conflict budget is used up
+no decision is made any more and every further conflict lowers the decision level, which is at most the
+number of decisions made before: at most `mc + loopDmax` clauses are learned. -/
+def loopFuel (mc sl n : Nat) : Nat := (mc + loopDmax mc sl n + sl) * (n + 3) + n + 2
+
+/-- last check before an enumeration is returned (the mirror is certifying, as for learned clauses and
+INFEASIBLE): the assignments are pairwise different – decided by the verified checker `distinctB`, the one the
+driver runs on `Result.solutions`; otherwise the mirror gives up with `GUARD` -/
+def guardDistinct (n : Nat) (o : Out) : Out :=
+  match o.solutions with
+  | some ms =>
+    if Solvor.Sat.distinctB (List.range' 1 n) ms then o
+    else { o with status := .UNBOUNDED, solution := none, solutions := none, note := "GUARD" }
+  | none => o
 
 def solve (clausesIn : List (List Int)) (assumptionsIn : List Int) (P : Params) : Out :=
   if clausesIn.isEmpty && assumptionsIn.isEmpty then
@@ -645,8 +774,8 @@ def solve (clausesIn : List (List Int)) (assumptionsIn : List Int) (P : Params) 
       match c0 with
       | .conflict _ => finishInf (P.solutionLimit ≤ 1) (emptyLoop st) 0
       | _ =>
-        let fuel := (P.maxConflicts + P.solutionLimit + 2) * (nVars + 2) * 2 + 64
+        let fuel := loopFuel P.maxConflicts P.solutionLimit nVars
         let L : Loop := { emptyLoop st with conflict := c0, nextRestart := P.lubyFactor * luby 1 }
-        run P fuel fuel L
+        guardDistinct nVars (run P fuel fuel L)
 
 end Solvor.Sat.Cdcl
